@@ -23,6 +23,7 @@ struct Acc {
     traces_ok: u64,
     trace_records: u64,
     trace_skipped: u64,
+    merge_skipped_unclosed: u64,
     violations: Vec<Violation>,
     machinery: Vec<String>,
     samples: Vec<J>,
@@ -43,6 +44,7 @@ impl Acc {
         self.traces_ok += o.traces_ok;
         self.trace_records += o.trace_records;
         self.trace_skipped += o.trace_skipped;
+        self.merge_skipped_unclosed += o.merge_skipped_unclosed;
         self.violations.extend(o.violations);
         self.machinery.extend(o.machinery);
         if self.samples.len() < 4 {
@@ -61,6 +63,13 @@ fn check_tables(
     source: &str,
 ) -> Vec<bcverify::FnReport> {
     let mut reports = vec![];
+    for problem in bcverify::verify_tables(t) {
+        acc.violations.push(Violation {
+            signature: format!("table-closure|{}|{}", form, origin),
+            summary: format!("[{} / {}] tables are not closed: {}", origin, form, problem),
+            replay: json!({"engine": "bcverify", "source": source, "origin": origin, "form": form, "rule": "table-closure"}),
+        });
+    }
     for fi in range {
         let rep = bcverify::verify_function(t, fi);
         acc.functions += 1;
@@ -254,6 +263,12 @@ fn merged_chunk(chunk: &[(String, String, Bytecode)]) -> Acc {
         return acc;
     };
     for (origin, text, bc) in chunk {
+        // a bytecode whose own tables are not closed was already reported in its tree-shaken
+        // form; merging it would make the environment walk dangling / cyclic type ids
+        if !bcverify::verify_tables(&Tables::of_bytecode(bc)).is_empty() {
+            acc.merge_skipped_unclosed += 1;
+            continue;
+        }
         let before = sys.env.get_program().get_functions().len();
         let r = std::panic::catch_unwind(std::panic::AssertUnwindSafe(|| sys.env.start_process(Some(bc.clone()))));
         match r {
@@ -508,6 +523,7 @@ pub fn run(tier: Tier) -> Result<Report, String> {
         "states": acc.states.max(1),
         "transitions": acc.transitions.max(1),
         "traces_validated_against_impl": acc.traces_ok,
+        "merges_skipped_because_tables_not_closed": acc.merge_skipped_unclosed,
         "trace_records_compared": acc.trace_records,
         "explanation": "states/transitions are abstract machine states (pc, operand height, locals count) and edges summed over all verified functions; every reachable abstract state of every function is visited (finite), so all control-flow paths are covered. traces_validated_against_impl = real executions (default schedule of the real runtime with the per-instruction trace hook) whose every traced instruction's concrete (height, locals) was a member of the abstract reachable set of its function at that pc.",
         "functions_verified": acc.functions,
